@@ -13,9 +13,11 @@ import (
 	"bytes"
 	"fmt"
 	"io"
+	"net"
 	"runtime"
 	"strconv"
 	"strings"
+	"time"
 
 	"elaverif/harness/hx"
 
@@ -29,6 +31,8 @@ import (
 	"github.com/elastos/Elastos.ELA/core/types/interfaces"
 	"github.com/elastos/Elastos.ELA/core/types/outputpayload"
 	"github.com/elastos/Elastos.ELA/core/types/payload"
+	"github.com/elastos/Elastos.ELA/p2p"
+	"github.com/elastos/Elastos.ELA/p2p/msg"
 )
 
 func init() {
@@ -87,6 +91,12 @@ func DecodeSchema(schema string, pv byte, b []byte) (reenc []byte, consumed int,
 		s = new(auxpow.AuxPow)
 	case "confirm":
 		s = new(payload.Confirm)
+	case "inv":
+		s = new(msg.Inv)
+	case "getblocks":
+		s = new(msg.GetBlocks)
+	case "addr":
+		s = new(msg.Addr)
 	case "output":
 		o := new(ctypes.Output)
 		if err = o.Deserialize(r, ctypes.TransactionVersion(pv)); err != nil {
@@ -185,6 +195,50 @@ func decodeBlock(b []byte) (blk *types.Block, consumed int, uncovered bool, err 
 		return nil, 0, false, err
 	}
 	return blk, len(b) - r.Len(), false, nil
+}
+
+// DecodeOnly runs nothing but the real decoder on b, the (already hex-decoded)
+// bytes of the op (no re-serialization, no coverage pre-pass); used for
+// allocation measurement.
+func DecodeOnly(t []string, b []byte) {
+	switch t[0] {
+	case "dec":
+		pv, _ := strconv.Atoi(t[2])
+		r := bytes.NewReader(b)
+		switch t[1] {
+		case "attribute":
+			new(ctypes.Attribute).Deserialize(r)
+		case "input":
+			new(ctypes.Input).Deserialize(r)
+		case "program":
+			new(program.Program).Deserialize(r)
+		case "header":
+			new(ctypes.Header).Deserialize(r)
+		case "auxpow":
+			new(auxpow.AuxPow).Deserialize(r)
+		case "confirm":
+			new(payload.Confirm).Deserialize(r)
+		case "inv":
+			new(msg.Inv).Deserialize(r)
+		case "getblocks":
+			new(msg.GetBlocks).Deserialize(r)
+		case "addr":
+			new(msg.Addr).Deserialize(r)
+		case "output":
+			new(ctypes.Output).Deserialize(r, ctypes.TransactionVersion(pv))
+		default:
+			if p, e := interfaces.GetPayload(PayloadType[t[1]], byte(pv)); e == nil {
+				p.Deserialize(r, byte(pv))
+			}
+		}
+	case "tx":
+		r := bytes.NewReader(b)
+		if tx, err := transaction.GetTransactionByBytes(r); err == nil {
+			tx.Deserialize(r)
+		}
+	case "block":
+		new(types.Block).Deserialize(bytes.NewReader(b))
+	}
 }
 
 // Exec is the adapter for the three op kinds.
@@ -525,8 +579,35 @@ func GenSample(r *hx.Rand) Sample {
 		return Sample{fmt.Sprintf("dec %s %d", n, pv), w.Bytes()}
 	case 10:
 		return Sample{"block", Ser(GenBlock(r))}
+	case 11:
+		return GenP2P(r)
 	}
 	return Sample{"tx", TxBytes(GenTx(r, true))}
+}
+
+// GenP2P draws one of the count-limited p2p messages.
+func GenP2P(r *hx.Rand) Sample {
+	switch r.Intn(3) {
+	case 0:
+		m := msg.NewInv()
+		for i, n := 0, sizes(r, 5, 100, 1000); i < n; i++ {
+			h := randU256(r)
+			m.AddInvVect(msg.NewInvVect(msg.InvType(r.Intn(5)), &h))
+		}
+		return Sample{"dec inv 0", Ser(m)}
+	case 1:
+		var loc []*common.Uint256
+		for i, n := 0, sizes(r, 10, 500); i < n; i++ {
+			h := randU256(r)
+			loc = append(loc, &h)
+		}
+		return Sample{"dec getblocks 0", Ser(msg.NewGetBlocks(loc, randU256(r)))}
+	}
+	var as []*p2p.NetAddress
+	for i, n := 0, sizes(r, 5, 1000); i < n; i++ {
+		as = append(as, p2p.NewNetAddressTimestamp(time.Unix(int64(uint32(r.U64())), 0), r.U64(), net.IP(r.Bytes(16)), uint16(r.U64())))
+	}
+	return Sample{"dec addr 0", Ser(msg.NewAddr(as))}
 }
 
 // varuint encodings used as hostile count prefixes.  Counts between 2^21 and
